@@ -54,18 +54,18 @@ import (
 )
 
 type c05IsoCase struct {
-	DB         string   `json:"db"` // wal | memory-shared
-	Writers    int      `json:"writers"`
-	Readers    int      `json:"readers"`
-	PartSize   int      `json:"big_part_size"`
-	SmallSize  int      `json:"small_part_size"`
-	Toggles    int      `json:"rounds_per_writer"`
-	WriterVia  []string `json:"writer_via"`
-	DeleteVia  []string `json:"delete_via"`
-	ReadBudget int      `json:"read_budget"`
-	WakeEvery  int      `json:"wake_every"`
-	WakePerPoint int    `json:"wake_per_point"`
-	Seed       uint64   `json:"perturb_seed"`
+	DB           string   `json:"db"` // wal | memory-shared
+	Writers      int      `json:"writers"`
+	Readers      int      `json:"readers"`
+	PartSize     int      `json:"big_part_size"`
+	SmallSize    int      `json:"small_part_size"`
+	Toggles      int      `json:"rounds_per_writer"`
+	WriterVia    []string `json:"writer_via"`
+	DeleteVia    []string `json:"delete_via"`
+	ReadBudget   int      `json:"read_budget"`
+	WakeEvery    int      `json:"wake_every"`
+	WakePerPoint int      `json:"wake_per_point"`
+	Seed         uint64   `json:"perturb_seed"`
 }
 
 const (
